@@ -3,10 +3,11 @@
 # verif), regenerated Lean tables, the Lean library (all models, proofs, property theorems)
 # and the native model driver.
 set -e
-cd /verif
+cd "$(dirname "$0")"
+V=$(pwd)
 export GOFLAGS=-mod=mod GOPROXY=off GOSUMDB=off GOTOOLCHAIN=local
 mkdir -p bin work evidence replays
 (cd harness && go build -tags verif -o ../bin/gentables ./cmd/gentables && go build -tags verif -o ../bin/trace ./cmd/trace)
-./bin/gentables /verif/lean/Pokerface/Generated
+./bin/gentables $V/lean/Pokerface/Generated
 (cd lean && lake build Pokerface pfdriver)
 echo setup done
